@@ -13,7 +13,7 @@ func init() {
 	register("C17", []string{"./internal/compact", "."}, runC17)
 	register("C45", []string{".", "./internal/compact", "./internal/rangekey", "./internal/rangekeystack"}, runC45)
 	register("C08", []string{".", "./internal/rangekey", "./internal/rangekeystack", "./internal/compact", "./internal/keyspan"}, runC08)
-	propExplain["C17"] = "Decides guard clauses of C17 in the compaction iterator: sequence numbers are zeroed only on the true edge of isBottommostSnapshotStripe, which is IsBottommostDataLayer && stripe 0; inside Next, keys are skipped (skipInStripe / single-delete elision) only where a tombstone may be elided in the LAST snapshot stripe or where a range tombstone covers the key VISIBLY to the stripe's snapshot; inside a stripe a key is dropped only if covered visibly; range tombstones are elided only in stripe 0; every kind dispatch names all point kinds or fails closed; the snapshot list reaches the iterator (C03.G1). Does not decide that the emitted key/value is the right one."
+	propExplain["C17"] = "Decides guard clauses of C17 in the compaction iterator: sequence numbers are zeroed only on the true edge of isBottommostSnapshotStripe, which is IsBottommostDataLayer && stripe 0; inside Next, keys are skipped (skipInStripe / single-delete elision) only where a tombstone may be elided in the LAST snapshot stripe or where a range tombstone covers the key VISIBLY to the stripe's snapshot; inside a stripe a key is dropped only if covered visibly; range tombstones are elided only in stripe 0; every kind dispatch names all point kinds or fails closed; the snapshot list reaches the iterator (C03.G1). (S1) sibling agreement: singleDeleteNext and skipDueToSingleDeleteElision both handle a SETWITHDEL met by a SINGLEDEL in a different arm than SET/MERGE (as a delete). Does not decide that the emitted key/value is the right one."
 	propExplain["C45"] = "Decides structural clauses of C45: internal scans pin their view before reading the visible sequence number (C01.O1 for newInternalIter), release it when construction fails, and every kind dispatch in the point-collapsing iterator and scanInternalImpl names all point / range-key kinds or fails closed. Does not decide replay equivalence."
 	propExplain["C08"] = "Decides the dispatch clause of C08: every switch over the range-key kinds (coalescing, user-iterator shadowing, encode/decode, memtable routing) names RangeKeySet, RangeKeyUnset and RangeKeyDelete or fails closed, and memTable.apply routes DeleteRange to the range-deletion skiplist and the three range-key kinds to the range-key skiplist (DeleteRange never removes range keys); and the sort-discipline clause: every sort of []keyspan.Key whose comparator ignores the trailer (CoalesceInto's by-suffix sort, on which \"the newest key at a suffix wins\" rests) is a stable sort. Does not decide defragmentation or bounds (value-level)."
 }
@@ -24,6 +24,7 @@ func runC17(c *Ctx) {
 	if n < 5 {
 		c.Unresolved("C17.T1", "fewer than 5 kind switches in internal/compact")
 	}
+	runC17S1(c)
 	// G1: zeroing only in the bottommost stripe
 	nz := 0
 	for _, fn := range c.P.AllFuncs {
@@ -387,5 +388,59 @@ func runC08S1(c *Ctx) {
 	}
 	if nStableRequired == 0 {
 		c.Unresolved("C08.S1", "no sort of []keyspan.Key with a trailer-blind comparator found (CoalesceInto's suffix sort expected)")
+	}
+}
+
+// runC17S1: sibling agreement between the two functions that apply a SINGLEDEL to the key
+// beneath it — singleDeleteNext (the tombstone is kept) and skipDueToSingleDeleteElision (the
+// tombstone is elided). A SETWITHDEL beneath a SINGLEDEL stands for "SET over an older
+// tombstone", so the SINGLEDEL must act as a DELETE (older versions stay hidden); a plain SET or
+// MERGE is simply consumed. In both functions the first dispatch over the met key's kind
+// therefore handles SetWithDelete in a different arm than Set and Merge.
+func runC17S1(c *Ctx) {
+	kindT := c.P.TypeByPath("base.InternalKeyKind")
+	if kindT == nil {
+		c.Unresolved("C17.S1", "base.InternalKeyKind not found")
+		return
+	}
+	var set, swd, merge int64 = -1, -1, -1
+	for _, k := range c.ConstsOfType("C17.S1", "base.InternalKeyKind") {
+		switch k.Name {
+		case "InternalKeyKindSet":
+			set = k.Val
+		case "InternalKeyKindSetWithDelete":
+			swd = k.Val
+		case "InternalKeyKindMerge":
+			merge = k.Val
+		}
+	}
+	for _, name := range []string{"compact.(*Iter).singleDeleteNext", "compact.(*Iter).skipDueToSingleDeleteElision"} {
+		fn := c.Fn("C17.S1", name)
+		if fn == nil {
+			continue
+		}
+		fd, pkg := c.P.Decl(fn)
+		if fd == nil {
+			c.Unresolved("C17.S1", "no declaration for "+name)
+			continue
+		}
+		var first *switchInfo
+		for _, sw := range SwitchesOn(pkg, fd, kindT) {
+			if sw.Cases[set] != nil || sw.Cases[swd] != nil {
+				first = sw
+				break
+			}
+		}
+		if first == nil {
+			c.Unresolved("C17.S1", "no dispatch over the met key's kind in "+name)
+			continue
+		}
+		a := first.Cases[swd]
+		ok := a != nil && a != first.Cases[set] && a != first.Cases[merge]
+		detail := ""
+		if !ok {
+			detail = "SetWithDelete shares an arm with Set/Merge (or is not named): a SINGLEDEL that meets a SETWITHDEL would consume only that key and re-expose the older versions the SETWITHDEL was hiding"
+		}
+		c.Ob("C17.S1", fn, "a SINGLEDEL treats a SETWITHDEL beneath it like a DELETE, not like a SET", c.P.Pos(first.Stmt.Pos()), ok, detail)
 	}
 }
